@@ -1,15 +1,14 @@
 CONSTANTS
   OptPoolSel = "small"
   OptArgSel = "two"
-  MaxLen = 2
-  Steps = 2
-  ClassSel = "all"
-  FirstSel = "all"
+  MaxLen = 1
+  Steps = 1
+  ClassSel = "nil"
+  FirstSel = "four"
   CollectMode = "bound"
   FbMode = "faithful"
-  InlineHit = "identity"
+  InlineHit = "notnone"
 INIT Init
 NEXT Next
 INVARIANT Explained
-INVARIANT Emit
 CHECK_DEADLOCK FALSE
